@@ -23,4 +23,4 @@ def queries(tier):
             Query('ptc_terminate_vs_worker[2 threads]', 'C19_ptc.cpp', 'harness_terminate_vs_worker', stubs=('threads.c',), yield_in='PlannerTerminationConditionImpl|St6atomic|St13__atomic_base', cxxflags=('-fno-inline',), unwind=6, timeout=to,
                   bound='worker thread (<=3 predicate evaluations, every predicate trace) vs terminate() at every memory access of the worker'),
             Query('next_seed[2 threads]', 'C19_seed.cpp', 'harness_next_seed', stubs=('threads.c',), yield_in='RNGSeedGenerator|subtract_with_carry|uniform_int|St6atomic|St13__atomic_base', cxxflags=('-fno-inline',), unwind=6, timeout=to,
-                  renames={'pthread_mutex_lock': 'vt_mutex_lock', 'pthread_mutex_unlock': 'vt_mutex_unlock'}, bound='2 threads, one nextSeed() each, every engine state')]
+                  renames={'pthread_mutex_lock': 'vt_mutex_lock', 'pthread_mutex_unlock': 'vt_mutex_unlock', 'pthread_rwlock_rdlock': 'vt_rwlock_rdlock', 'pthread_rwlock_wrlock': 'vt_rwlock_wrlock', 'pthread_rwlock_unlock': 'vt_rwlock_unlock'}, bound='2 threads, one nextSeed() each, every engine state')]
